@@ -164,6 +164,11 @@ pub enum MsgSel {
 pub enum Op {
     FlipBit { msg: MsgSel, bit: u16 },
     XorByte { msg: MsgSel, pos: u16, mask: u8 },
+    /// a correlated multi-byte alteration: `k` distinct positions chosen from `seed`; mode 0 = the
+    /// same mask anywhere, 1 = the same mask inside the last 32 bytes (where seeds live), 2 = two
+    /// bytes of the last 32 changed by +d / −d, 3 = two differing bytes of the last 32 exchanged.
+    /// (Differences that cancel under an XOR-, sum- or multiset-fold comparison.)
+    XorMulti { msg: MsgSel, seed: u64, k: u8, mode: u8, mask: u8 },
     /// decode-modify-encode element `idx` of the element region of the message
     AddElem { msg: MsgSel, idx: u16, delta: ValSel },
     /// the same at an exact element index (used by the exhaustive position sweep)
@@ -214,6 +219,7 @@ fn op_strategy() -> BoxedStrategy<Op> {
     prop_oneof![
         5 => (msgsel(), any::<u16>()).prop_map(|(msg, bit)| Op::FlipBit { msg, bit }),
         2 => (msgsel(), any::<u16>(), 1u8..=255).prop_map(|(msg, pos, mask)| Op::XorByte { msg, pos, mask }),
+        3 => (msgsel(), any::<u64>(), 2u8..=6, 0u8..4, 1u8..=255).prop_map(|(msg, seed, k, mode, mask)| Op::XorMulti { msg, seed, k, mode, mask }),
         6 => (msgsel(), any::<u16>(), valsel()).prop_map(|(msg, idx, delta)| Op::AddElem { msg, idx, delta }),
         1 => (msgsel(), 1u8..=40).prop_map(|(msg, k)| Op::Truncate { msg, k }),
         1 => (msgsel(), 1u8..=3).prop_map(|(msg, k)| Op::Extend { msg, k }),
@@ -329,6 +335,42 @@ fn mutate_bytes(b: &mut Vec<u8>, op: &Op, elem_size: usize, elem_region: (usize,
             if !b.is_empty() {
                 let i = idx16(*pos, b.len());
                 b[i] ^= *mask;
+            }
+        }
+        Op::XorMulti { seed, k, mode, mask, .. } => {
+            let len = b.len();
+            if len >= 2 {
+                let (lo, span) = if *mode == 0 || len < 32 { (0, len) } else { (len - 32, 32) };
+                let k = if *mode >= 2 { 2 } else { (*k as usize).clamp(2, span) };
+                // k distinct positions by a partial shuffle driven by the seed
+                let r = expand(*seed, 0xC02, span.min(64));
+                let mut idx: Vec<usize> = (0..span).collect();
+                for t in 0..k {
+                    let j = t + (r[t % r.len()] as usize) % (span - t);
+                    idx.swap(t, j);
+                }
+                let pos: Vec<usize> = idx[..k].iter().map(|i| lo + i).collect();
+                match *mode {
+                    0 | 1 => {
+                        for &i in &pos {
+                            b[i] ^= *mask;
+                        }
+                    }
+                    2 => {
+                        b[pos[0]] = b[pos[0]].wrapping_add(*mask);
+                        b[pos[1]] = b[pos[1]].wrapping_sub(*mask);
+                    }
+                    _ => {
+                        // exchange two differing bytes (search from the chosen pair onwards)
+                        let (a, mut c) = (pos[0], pos[1]);
+                        let mut tries = 0;
+                        while b[a] == b[c] && tries < span {
+                            c = lo + (c - lo + 1) % span;
+                            tries += 1;
+                        }
+                        b.swap(a, c);
+                    }
+                }
             }
         }
         Op::AddElem { delta, .. } | Op::AddElemAt { delta, .. } => {
@@ -532,7 +574,7 @@ impl<'a> VdafVisitor for Run<'a> {
                                     }
                                 }
                             }
-                            Op::FlipBit { msg, .. } | Op::XorByte { msg, .. } | Op::AddElem { msg, .. } | Op::AddElemAt { msg, .. } | Op::Truncate { msg, .. } | Op::Extend { msg, .. } => match msg {
+                            Op::FlipBit { msg, .. } | Op::XorByte { msg, .. } | Op::XorMulti { msg, .. } | Op::AddElem { msg, .. } | Op::AddElemAt { msg, .. } | Op::Truncate { msg, .. } | Op::Extend { msg, .. } => match msg {
                                 MsgSel::PublicAll => {
                                     let mut b = publics[0].clone();
                                     let ch = mutate_bytes(&mut b, op, es, (0, 0), &p);
@@ -612,7 +654,7 @@ impl<'a> VdafVisitor for Run<'a> {
                                     bump(true);
                                 }
                             }
-                            Op::FlipBit { msg: MsgSel::VerifierShare(j), .. } | Op::XorByte { msg: MsgSel::VerifierShare(j), .. } | Op::AddElem { msg: MsgSel::VerifierShare(j), .. } | Op::AddElemAt { msg: MsgSel::VerifierShare(j), .. } | Op::Truncate { msg: MsgSel::VerifierShare(j), .. } | Op::Extend { msg: MsgSel::VerifierShare(j), .. } => {
+                            Op::FlipBit { msg: MsgSel::VerifierShare(j), .. } | Op::XorByte { msg: MsgSel::VerifierShare(j), .. } | Op::XorMulti { msg: MsgSel::VerifierShare(j), .. } | Op::AddElem { msg: MsgSel::VerifierShare(j), .. } | Op::AddElemAt { msg: MsgSel::VerifierShare(j), .. } | Op::Truncate { msg: MsgSel::VerifierShare(j), .. } | Op::Extend { msg: MsgSel::VerifierShare(j), .. } => {
                                 let j = *j as usize % shares.len();
                                 let ch = mutate_bytes(&mut shares[j], op, es, (0, verifier_len_total), &p);
                                 bump(ch);
@@ -652,7 +694,7 @@ impl<'a> VdafVisitor for Run<'a> {
                                     }
                                 }
                             }
-                            Op::FlipBit { msg: sel, .. } | Op::XorByte { msg: sel, .. } | Op::AddElem { msg: sel, .. } | Op::AddElemAt { msg: sel, .. } | Op::Truncate { msg: sel, .. } | Op::Extend { msg: sel, .. } => match sel {
+                            Op::FlipBit { msg: sel, .. } | Op::XorByte { msg: sel, .. } | Op::XorMulti { msg: sel, .. } | Op::AddElem { msg: sel, .. } | Op::AddElemAt { msg: sel, .. } | Op::Truncate { msg: sel, .. } | Op::Extend { msg: sel, .. } => match sel {
                                 MsgSel::MessageAll => {
                                     let mut b = msgs[0].clone();
                                     let ch = mutate_bytes(&mut b, op, es, (0, 0), &p);
@@ -792,7 +834,7 @@ impl Check for C02 {
     type Case = Case;
     const ID: &'static str = "C02";
     fn rule(&self) -> String {
-        "(client) valid encoding + 1..3 edits (set/add/move/both at first/last/last-chunk/random positions with values 0,1,2,−1,−2,(p+1)/2,random) sharded by the REAL sharding code through a Type wrapper with identity encoding, verified by the real instance; oracle = independent validity predicate: invalid ⇒ rejected (3 fresh keys re-test), valid ⇒ accepted with outputs = truncation. (tamper) honest report + 1..3 wire operations (bit flip, byte xor, field-element +δ keeping the message decodable, truncate/extend, swap/drop/duplicate/replace shares, foreign verifier message) on public share, input shares, verifier shares, verifier message; single effective alteration ⇒ some aggregator fails; otherwise all-finish ⇒ outputs valid (and honest if no input share touched). Non-trivial = invalid or alternative-valid vector, or an alteration that survives decoding; distinct by case hash".into()
+        "(client) valid encoding + 1..3 edits (set/add/move/both at first/last/last-chunk/random positions with values 0,1,2,−1,−2,(p+1)/2,random) sharded by the REAL sharding code through a Type wrapper with identity encoding, verified by the real instance; oracle = independent validity predicate: invalid ⇒ rejected (3 fresh keys re-test), valid ⇒ accepted with outputs = truncation. (tamper) honest report + 1..3 wire operations (bit flip, byte xor, correlated multi-byte changes whose differences cancel under an XOR/sum/multiset fold, field-element +δ keeping the message decodable, truncate/extend, swap/drop/duplicate/replace shares, foreign verifier message) on public share, input shares, verifier shares, verifier message; single effective alteration ⇒ some aggregator fails; otherwise all-finish ⇒ outputs valid (and honest if no input share touched). Non-trivial = invalid or alternative-valid vector, or an alteration that survives decoding; distinct by case hash".into()
     }
     fn assumptions(&self) -> Vec<String> {
         vec!["soundness error of the FLP over Field64/Field128 (≤ 2^-50 per attempt); acceptance is only reported after 4 independent verification keys accept".into()]
